@@ -334,9 +334,21 @@ func (b *build) runWorker(spec Spec, gomaxprocs int, timeout time.Duration) ([]R
 	}
 	if werr != nil {
 		tail := outBuf.String()
-		if len(tail) > 4000 {
-			tail = tail[len(tail)-4000:]
+		head := ""
+		for _, key := range []string{"fatal error:", "panic:", "WARNING: DATA RACE"} {
+			if i := strings.Index(tail, key); i >= 0 {
+				head = tail[i:]
+				if len(head) > 2500 {
+					head = head[:2500]
+				}
+				head = "[first " + key + "]\n" + head + "\n[...]\n"
+				break
+			}
 		}
+		if len(tail) > 1500 {
+			tail = tail[len(tail)-1500:]
+		}
+		tail = head + tail
 		return res, fmt.Errorf("%v\n%s", werr, tail)
 	}
 	return res, nil
